@@ -17,6 +17,8 @@ WH = {
     "C03": (["content"], True, False, lambda op: op.split()[0] in ("qry", "eqry", "nqry", "qwr", "wrt")),
     "C02": (["content", "alloc"], True, False, None),
     "C04": ([], False, True, None),
+    "C05": (["content", "alloc", "struct"], True, False, None),
+    "C17": ([], False, False, lambda op: False),
     "C06": (["content", "alloc", "res"], True, False, None),
     "C09": (["content"], True, False, lambda op: op.split()[0] in ("pqry", "pqwr")),
     "C10": (["content", "alloc", "res", "struct"], True, True, None),
@@ -43,6 +45,7 @@ def wh_check(pid, tier, seed, t0):
     known = [k for k in load_known() if k["property"] == pid and k["status"] == "known"]
     known_classes = {k.get("class") for k in known}
     diverged = []
+    fault_mismatch = []
     viol = []
     known_hits = Counter()
     nontrivial = set()
@@ -54,6 +57,10 @@ def wh_check(pid, tier, seed, t0):
         d = wh.first_divergence(ic, mc, views, with_ret, with_ev, opf)
         if d is not None:
             diverged.append((idx, d))
+        if pid == "C17" and wh.is_fault_case(ic):
+            mm = wh.fault_prediction_mismatch(ic, mc)
+            if mm:
+                fault_mismatch.append((idx, mm))
         for (si, p, msg) in orc["fails"]:
             if p == pid or p == "*":
                 viol.append((idx, si, msg))
@@ -83,8 +90,12 @@ def wh_check(pid, tier, seed, t0):
         print("VIOLATION property=%s replay=%s" % (pid, replay_path))
         print("  " + msg)
         rc = 1
-    elif not proof["ok"] or diverged or crashed or incomplete:
+    elif not proof["ok"] or diverged or crashed or incomplete or fault_mismatch:
         what = []
+        if fault_mismatch:
+            idx, mm = fault_mismatch[0]
+            what.append({"correspondence": "cell-level fault model vs ledger of the implementation", "case_index": idx,
+                         "message": mm, "ops": eng["cases"][idx], "n": len(fault_mismatch)})
         if not proof["ok"]:
             what.append({"theorem_or_file": proof["failed_theorem"], "log": proof["log"][-1500:]})
         if diverged:
